@@ -45,6 +45,10 @@ class ModelCheck:
     def mismatch(self, result):
         return result["expected"] != result["observed"]
 
+    def valid(self, case):
+        """Generator invariants that a shrunk case must still satisfy."""
+        return True
+
     # ------------------------------------------------------------------
     def safe_run(self, case, res):
         try:
@@ -69,6 +73,8 @@ class ModelCheck:
                 return False
             c = dict(case)
             c[key] = list(items)
+            if not self.valid(c):
+                return False
             try:
                 r = self.run(c)
             except BaseException:  # noqa: BLE001
